@@ -90,14 +90,16 @@ var propRound7 = map[string]string{
 	"C02": " A failed mutator of the segment writer restores every field it touched, the write offset included.",
 	"C03": " Truncation keep/drop decisions equal the model on every path of the segment loop (also for the [sealed, empty tail] shape a completed recovery leaves).",
 	"C04": " The 'file does not exist' identity survives every layer up to Open's errors.Is test; a committed-but-incomplete state change stops the writer.",
-	"C05": " The truncation helpers' keep/drop decisions are checked against the model in terms of DeleteRange's own min/max, whatever convention the helper's argument follows.",
+	"C05": " The truncation helpers' keep/drop decisions are checked against the model in terms of DeleteRange's own min/max, whatever convention the helper's argument follows. The bytes a frame read hands out start at file position offset + frame header length on every path, and pieces of a payload read separately join up (symbolic file position of every buffer).",
+	"C09": " The reader's frame payload is the byte range [offset + frame header length, ...) of the file on every path.",
+	"C16": " The running (checksum, start index) pair is threaded through every entry of a batch: what the per-entry step updates in a by-value copy is handed back to the loop.",
 	"C06": " The functions reachable from GetLog / FirstIndex / LastIndex write only call-private or caller-owned memory (every store, map update, ReadAt / copy / PutUint destination is attributed through all call sites); everything else goes through sync/atomic.",
 	"C10": " On every path on which MetaStore.CommitState succeeded, the write lock is not released before the state is published or the WAL is marked failed, and the mark is tested under the lock before tail.Append and before every state transaction; lookups in the tail are bounded by the commit index (entries of a failed batch are never served).",
 	"C11": " A 64-bit unsigned file value converted to a signed integer needs a bound on both sides (a signed comparison with len() lets negative values through).",
 	"C12": " Every entry of a batch is encoded into storage allocated for it alone (LogEntry.Data never shares a growable backing array).",
 	"C13": " Tail truncation drops, on every path of its loop, exactly the segments that start at or above the first deleted index.",
-	"C15": " Every entry of a batch is encoded into storage of its own.",
-	"C17": " The leader's verification metadata is written into the entry the caller passed in (what raft replicates), never into a copy; every parameter of NewLogStore reaches its field on every path.",
+	"C15": " Every entry of a batch is encoded into storage of its own; an entry that does not fit the pooled read buffer is returned from the right file position (both read paths, symbolic).",
+	"C17": " The leader's verification metadata is written into the entry the caller passed in (what raft replicates), never into a copy; every parameter of NewLogStore reaches its field on every path; the running state is threaded through every entry of a batch.",
 	"C18": " Constructor wiring: NewLogStore stores each of its parameters on every path that returns the store (or the parameter is nil there).",
 	"C20": " Every successful Set / SetUint64 / Get / GetUint64 / GetLog / StoreLog(s) call passes through exactly one increment of each of its per-call counters.",
 }
